@@ -118,6 +118,10 @@ def strip_cv(t):
             if t.endswith(q):
                 t = t[:-len(q)].strip()
                 changed = True
+        for q in ('*const', '*volatile', '&const'):
+            if t.endswith(q):   # `T *const p`: a const pointer object
+                t = t[:-len(q) + 1].strip()
+                changed = True
     return t
 
 
@@ -295,6 +299,7 @@ class TU:
             if n.get('kind') == 'TypeAliasDecl' and n.get('name') and 'type' in n:
                 self.types.aliases[n['name']] = n['type'].get('qualType')
         self.labels = {}
+        self.anon_funcs = {}
         for d in self.docs + self.anon:
             self._walk(d, None, reg)
         seen_doc_ids = set()
@@ -302,6 +307,13 @@ class TU:
         for d in self.anon:
             if d.get('kind') == 'VarDecl' and d.get('constexpr'):
                 self._reg_const(d)
+            elif d.get('kind') == 'FunctionDecl' and self._has_body(d):
+                # file-local helper function in the anonymous namespace of the TU: a free function of the component.
+                # The two AST dumps come from two clang runs, so calls are resolved by NAME (overloads are refused).
+                if d['name'] in self.anon_funcs:
+                    die('overloaded file-local function %s' % d['name'], d)
+                self._collect_func(d, [])
+                self.anon_funcs[d['name']] = d['id']
         for d in self.docs:
             if d.get('id') in seen_doc_ids:
                 continue
@@ -1438,6 +1450,8 @@ class Emitter:
         if rid not in self.tu.funcs and rid in self.tu.extern_funcs:
             self.tu.funcs[rid] = self.tu.extern_funcs[rid]
             self.used_extern.append(self.tu.extern_funcs[rid])
+        if rid not in self.tu.funcs and rn in self.tu.anon_funcs and '(anonymous namespace)' in str(r.get('qualifiedName', '(anonymous namespace)')):
+            rid = self.tu.anon_funcs[rn]
         if rid in self.tu.funcs:
             f = self.tu.funcs[rid]
             return self.own_call(f, None, args, e)
@@ -1451,6 +1465,14 @@ class Emitter:
             if a1.get('kind') != 'CXXNullPtrLiteralExpr':
                 die('std::exchange on a shared_ptr with a non-null new value', e)
             return 'shared_ptr_size_exchange_null(%s)' % self.addr(args[0])
+        if rn == 'exchange' and len(args) == 2:
+            # std::exchange on a plain pointer / integer object: the old value is returned, the new one stored
+            ct = self.ctype_of_expr(args[0])
+            if ct.endswith('*'):
+                return '((%s)verif_exchange_ptr((void **)%s, (void *)(%s)))' % (ct, self.addr(args[0]), self.expr(args[1]))
+            if ct in ('uint64_t', 'size_t', 'uint32_t', 'int64_t', 'int32_t', '_Bool'):
+                return 'verif_exchange_%s(%s, %s)' % (ct, self.addr(args[0]), self.expr(args[1]))
+            die('std::exchange on an object of type %s' % ct, e)
         if rn in ('max', 'min') and len(args) == 2:
             # std::min / std::max of two values (by-value stub; the reference result is only read)
             ct = self.ctype(e)
